@@ -527,16 +527,21 @@ class TextXVisitor(RRELVisitor):
                             # stop after first added/found type
                             return True
                     else:
-                        is_ordered_choice = isinstance(rule, OrderedChoice)
-                        inh_added = False
+                        if isinstance(rule, OrderedChoice):
+                            # Each alternative contributes. The rest of
+                            # the enclosing sequence is of no influence
+                            # only if every alternative has a non-match
+                            # reference.
+                            inh_added = True
+                            for r in rule.nodes:
+                                inh_added &= _add_reffered_classes(r, inh_by)
+                            return inh_added
                         for r in rule.nodes:
-                            inh_added |= _add_reffered_classes(r, inh_by)
-                            if inh_added and not is_ordered_choice:
+                            if _add_reffered_classes(r, inh_by):
                                 # If not ordered choice we should get out
                                 # early as the rest of the rule shouldn't
                                 # influence the inheritance hierarchy.
-                                break
-                        return inh_added
+                                return True
                     return False
 
                 _add_reffered_classes(rule, cls._tx_inh_by, start=True)
